@@ -22,6 +22,9 @@ bool run_kind(std::string const& kind, std::string const& alloc, Json const& pla
     if (alloc == AlwaysEqual::name) return run_one<K, AlwaysEqual>(plan, out);
     if (alloc == Propagate::name) return run_one<K, Propagate>(plan, out);
     if (alloc == NoPropagate::name) return run_one<K, NoPropagate>(plan, out);
+#if __cplusplus >= 201703L
+    if (alloc == Pmr::name) return run_one<K, Pmr>(plan, out);
+#endif
     return false;
 }
 
